@@ -28,4 +28,44 @@ CHECKS = {
         "rule": "rapid-generated block histories (genesis, 8-40 blocks, all tx types valid+invalid, evidence, absentees) executed on two independently opened replicas; non-trivial = a block with >=2 successful txs or a multi-staker reward round, plus a contract tx or a validator-set change; distinct = distinct (tx type,outcome) shape hashes",
         "assumptions": COMMON_ASSUME + ["both replicas run in one OS process (thorough tier adds a second process)"],
     },
+    "C05": {
+        "test": "TestC05", "level": "exploration", "engine": "twin",
+        "technique": "property-based metamorphic testing: block with failed txs vs the same block without them, compared by a semantic state digest",
+        "level_text": "Exploration with a metamorphic oracle: for every generated history (about half of the txs fail, in every failure class incl. late failures inside controllers and the EVM) a second replica executes each block with exactly the failed txs removed; the remaining tx results, the validator updates and a semantic digest of all committed state (accounts, stakes, unbonding, rewards, proposals, parameters, contract code+storage) must be equal after every block.",
+        "level_note": "The digest omits empty accounts (a failed tx may create an empty receiver account, which no query can distinguish from an absent one); app hashes are therefore not compared. The per-block EVM gas pool is kept from being exhausted by generator construction.",
+        "quick": {"checks": 120, "timeout": 600},
+        "thorough": {"checks": 400, "shards": 15, "timeout": 3000},
+        "rule": "rapid-generated block histories with ~50% failing txs of all classes; non-trivial = a tx that failed late (inside a controller or the EVM, after signature/nonce/funds checks) followed by a successful tx in the same block; distinct = distinct (tx type,outcome) shape hashes",
+        "assumptions": COMMON_ASSUME,
+    },
+    "C06": {
+        "test": "TestC06", "level": "exploration", "engine": "twin",
+        "technique": "property-based differential testing: quiet replica vs replica serving generated CheckTx/Query schedules at ABCI-call boundaries",
+        "level_text": "Exploration over schedules at ABCI-call granularity: the noisy replica serves generated CheckTx (the block's own txs before/at/after their delivery, fresh valid txs of all types, duplicates, garbage) and Query calls (all paths, heights past/latest/future/odd) before BeginBlock, between any two DeliverTx, before/after EndBlock and after Commit; every block result and app hash must equal the quiet replica's.",
+        "level_note": "Interleaving is at the granularity Tendermint's local ABCI client gives (the application mutex serialises calls); data races inside a call are out of reach.",
+        "quick": {"checks": 120, "timeout": 600},
+        "thorough": {"checks": 400, "shards": 15, "timeout": 3000},
+        "rule": "rapid-generated histories plus injected-call schedules; non-trivial = at least one injected CheckTx returned code 0 between BeginBlock and EndBlock (counted per tx type; staking/unstaking with >=3 validators counted separately); distinct = distinct (tx shape + injection shape) hashes",
+        "assumptions": COMMON_ASSUME,
+    },
+    "C07": {
+        "test": "TestC07", "level": "exploration", "engine": "twin",
+        "technique": "property-based differential testing: continuous replica vs replica restarted at generated block boundaries",
+        "level_text": "Exploration over histories x restart subsets: the second replica is stopped (all DB handles closed) and reopened from its directory at generated boundaries - forced with high probability right after blocks that changed stakes, validator membership or governance parameters and after every 10th block; Info after reopen must equal the last commit and every later block result must equal the continuous replica's.",
+        "level_note": "Restart = orderly Stop() + reopen in the same process (crashes are C08).",
+        "quick": {"checks": 100, "timeout": 600},
+        "thorough": {"checks": 300, "shards": 15, "timeout": 3000},
+        "rule": "rapid-generated histories with restart markers; non-trivial = a restart directly followed by a block whose outcome depends on rebuilt memory (validator proposal, staking with limiter, validator-set change, contract call); distinct = distinct (tx shape + restart positions) hashes",
+        "assumptions": COMMON_ASSUME,
+    },
+    "C08": {
+        "test": "TestC08", "level": "fault_enumeration", "engine": "twin",
+        "technique": "fault enumeration over generated histories: every ABCI boundary and every durable write of Commit as a crash point, snapshot + reopen + replay",
+        "level_text": "Fault enumeration: for rapid-generated histories, every crash point of the sampled blocks (quick) / of every block (thorough) is taken - before/after BeginBlock, after each DeliverTx, after EndBlock, after each of the 12-13 durable writes of Commit (named by store through the verifhook callback) and after Commit. The data directory is copied at that instant (what a killed process leaves), a new node is opened on the copy and must report a reconcilable height/hash, replay the interrupted block and follow the never-crashed replica's results for up to two more blocks.",
+        "level_note": "Fault model is process death (no torn or reordered disk writes). Known finding F8: the points between the first and the last durable write fail on the unchanged tree in one specific mode; exactly that (point, mode) set is tolerated and counted, anything else alarms.",
+        "quick": {"checks": 12, "timeout": 900},
+        "thorough": {"checks": 40, "shards": 15, "timeout": 3000},
+        "rule": "crash points enumerated per block of rapid-generated histories (5-14 blocks); evaluations = histories, extra.crash_points = examined points per label; non-trivial = a history with at least one examined crash point strictly inside Commit; distinct = distinct (tx shape, number of points) hashes",
+        "assumptions": COMMON_ASSUME + ["no background writer touches the data directory while it is copied (goleveldb compaction does not run on these kilobyte-sized stores)"],
+    },
 }
